@@ -437,6 +437,17 @@ C["C38"] = {
  "stubs": SRV_STUBS + LIVE, "trusted_base": SRV_TB,
 }
 
+# ---------------- C35 ----------------
+C["C35"] = {
+ "pkgs": ["."],
+ "technique": "context-bounded symbolic execution of two or three real connection handlers (attachClient) as interpreted goroutines: every interleaving at synchronisation operations (atomics, locks, channel and connection operations) with at most k pre-emptions is an engine decision",
+ "quick": {"harnesses": [H("VerifC35Limit", CONNS=2, MAX=1, PREEMPT=1), H("VerifC35Limit", CONNS=3, MAX=2, PREEMPT=0)], "budget_s": 300, "witnesses": 4, "perm_limit": 1,
+   "bounds": "2 concurrent attempts with MaximumClients=1 and <= 1 pre-emption; 3 attempts with MaximumClients=2 under cooperative scheduling; protocol 4/5"},
+ "thorough": {"harnesses": [H("VerifC35Limit", CONNS=2, MAX=1, PREEMPT=2), H("VerifC35Limit", CONNS=3, MAX=2, PREEMPT=1)], "budget_s": 1800, "witnesses": 4, "perm_limit": 1, "bounds": "<= 2 pre-emptions for 2 attempts, <= 1 for 3 attempts"},
+ "outside_bounds": ["more pre-emptions / more connections", "pre-emption between non-synchronising instructions (sound only for data-race-free code; C33 is not decided)", "counterexample schedules are not natively replayable without yield hooks in /repo (none are installed); they are reported with the decision list"],
+ "stubs": SRV_STUBS + LIVE, "trusted_base": SRV_TB,
+}
+
 def main():
     os.makedirs(os.path.join(root, "checks"), exist_ok=True)
     for cid, c in C.items():
